@@ -284,6 +284,7 @@ func (s *Service) Stop(drainTimeout time.Duration, message string) error {
 	}
 
 	slog.Info("Service stopped", "service", s.name)
+	verifPoint("stop.gated", s.name)
 
 	s.Drain(drainTimeout)
 	slog.Info("Service drained", "service", s.name)
@@ -297,6 +298,7 @@ func (s *Service) Pause(drainTimeout time.Duration, pauseTimeout time.Duration) 
 	}
 
 	slog.Info("Service paused", "service", s.name)
+	verifPoint("pause.gated", s.name)
 
 	s.Drain(drainTimeout)
 	slog.Info("Service drained", "service", s.name)
@@ -422,8 +424,10 @@ func (s *Service) serviceRequestWithTarget(w http.ResponseWriter, r *http.Reques
 	if s.handlePausedAndStoppedRequests(w, r) {
 		return
 	}
+	verifPoint("req.gated", r.Header.Get("X-Request-ID"))
 
 	lb := s.loadBalancerForRequest(r)
+	verifPoint("req.picked", r.Header.Get("X-Request-ID"))
 	lb.ServeHTTP(w, r)
 }
 
